@@ -194,7 +194,7 @@ def run_key(run):
     return (run.benchmark.suite.executor.name, run.benchmark.suite.name, run.benchmark.name)
 
 
-def run_build_session(workdir, conf, argv, build_result, cpu_count=1, choices=None, choose=None, bench_rc=None):
+def run_build_session(workdir, conf, argv, build_result, cpu_count=1, choices=None, choose=None, bench_rc=None, oserr_errno=2):
     """one session; `build_result(script, cwd)` -> 'ok' | 'fail' | 'oserr'.
 
     choices: values for random.choice (index = value % len); choose: the thread
@@ -210,7 +210,7 @@ def run_build_session(workdir, conf, argv, build_result, cpu_count=1, choices=No
     def script(rec):
         if rec['args'] == '/bin/sh' and not rec['shell']:
             if build_result(None, rec['cwd']) == 'oserr':
-                return drive.Outcome(oserror=2)
+                return drive.Outcome(oserror=oserr_errno)
             return LazyOutcome(rec, lambda r: 0 if build_result(r['stdin'], r['cwd']) == 'ok' else 1,
                                out='build output\n')
         if bench_rc is not None:
